@@ -247,6 +247,19 @@ def cases(rng, tier):
                 tm, tg = ["+", [tm, V("b")]], ["+", [V("b"), tg]]
             yield {"op": "C17.match", "tag": "kw-written-order", "tmpl": tm, "target": tg, "cands": sorted(tv), "pre": None,
                    "kw_rev": True}
+    # a call WITHOUT keyword arguments against a call WITH keyword arguments (and the other way round), same
+    # positional arguments: the keyword arguments of either side must not be ignored
+    for _ in range(16):
+        pos_t = [V(x) for x in rng.sample(TV, rng.randint(1, 2))]
+        pos_e = [rand_expr(rng, rng.randint(0, 1), EV, EF, rich=False) for _ in pos_t]
+        kws = [[k, rand_expr(rng, 0, EV, EF, rich=False)] for k in rng.sample(["k", "m", "n"], rng.randint(1, 2))]
+        plain_t, plain_e = ["call", "f", pos_t, []], ["call", "f", pos_e, []]
+        with_t, with_e = ["call", "f", pos_t, [[k, V("w")] for k, _ in kws]], ["call", "f", pos_e, kws]
+        cands = sorted({x[1] for x in pos_t} | {"w"})
+        for tm, tg in ((plain_t, with_e), (with_t, plain_e)):
+            if rng.random() < 0.5:
+                tm, tg = ["+", [tm, V("b")]], ["+", [V("b"), tg]]
+            yield {"op": "C17.match", "tag": "kw-on-one-side", "tmpl": tm, "target": tg, "cands": cands, "pre": None, "kw_rev": False}
     for _ in range(3000 if tier == "quick" else 40000):
         yield rand_case(rng)
 
